@@ -1,16 +1,56 @@
-(* Line dispatch for C11: "runschain seq" -> "ok seq" | "err class". *)
+(* Line dispatch for C11.
+     runschain seq              -> result of one call
+     runsshape shape seq        -> the same call, the harness holds the input in a storage shape
+                                   (exact | spare | shared | prefix:K = the input is the first K elements)
+     runshist tok;tok;...       -> several calls in one process, tok = seq or "=" (the same input again);
+                                   every call is independent in the model: "ok r1 | r2 | ..." *)
 From Coq Require Import String.
 From Coq Require Import List NArith ZArith Bool.
 From AV Require Import model.Proto model.Chain model.Runs.
 Import ListNotations.
 Open Scope N_scope.
 
+Definition call1 (c : list Z) : list N := print_outcome (print_list print_hexZ) (runs_chain c).
+
+Definition semi : N := 59.
+
+(* "prefix:" ++ decimal *)
+Definition shape_input (shape : list N) (c : list Z) : option (list Z) :=
+  if str_eqb shape $"exact" || str_eqb shape $"spare" || str_eqb shape $"shared" then Some c
+  else match split 58 shape with
+       | [p; k] => if str_eqb p $"prefix" then option_map (fun n => firstn n c) (parse_nat k) else None
+       | _ => None
+       end.
+
+Fixpoint hist_loop (prev : option (list Z)) (toks : list (list N)) : option (list (list N)) :=
+  match toks with
+  | [] => Some []
+  | t :: r =>
+      let oc := if str_eqb t $"=" then prev else parse_list parse_hexZ t in
+      match oc with
+      | Some c => option_map (cons (call1 c)) (hist_loop (Some c) r)
+      | None => None
+      end
+  end.
+
 Definition run (line : list N) : list N :=
   match split sp line with
   | [f; a] =>
       if str_eqb f $"runschain" then
         match parse_list parse_hexZ a with
-        | Some c => print_outcome (print_list print_hexZ) (runs_chain c)
+        | Some c => call1 c
+        | None => r_badcase
+        end
+      else if str_eqb f $"runshist" then
+        match hist_loop None (split semi a) with
+        | Some rs => r_ok (join $" | " rs)
+        | None => r_badcase
+        end
+      else r_badcase
+  | [f; s; a] =>
+      if str_eqb f $"runsshape" then
+        match parse_list parse_hexZ a with
+        | Some c => match shape_input s c with Some c' => call1 c' | None => r_badcase end
         | None => r_badcase
         end
       else r_badcase
